@@ -39,7 +39,8 @@ def methodTable : List (String × String) :=
    ("write_str", "inherent method of core::fmt::Formatter"),
    ("to_lowercase", "inherent method of str"),
    ("as_str", "inherent method of String"),
-   ("fold", "the receiver's type is a type parameter bounded by `derive_more::core::iter::Iterator` in the same template")]
+   ("fold", "the receiver's type is a type parameter bounded by `derive_more::core::iter::Iterator` in the same template"),
+   ("wrapping_add", "inherent method of the primitive integer types; the receiver is a constant of the enum's `repr` type")]
 
 /-- Names of the associated functions that templates call through a *type* path (`Type::f(..)`,
 `Type::<..>::f(..)`) and of the types they are called on. Such a call is an inherent function of that
@@ -57,22 +58,22 @@ def idDeriveMore : Nat := 56
 def idStd : Nat := 57
 def idCore : Nat := 58
 def methodBase : Nat := 59
-def nMethods : Nat := 7
+def nMethods : Nat := 8
 
 example : keywords.length = nKw := rfl
 example : primitives.length = nPrim := rfl
 example : methodTable.length = nMethods := rfl
-def assocBase : Nat := 66
-def idNew : Nat := 66
-def idDebugStruct : Nat := 67
-def idDebugTuple : Nat := 68
-def idFormatter : Nat := 69
-def idError : Nat := 70
-def idField : Nat := 71
-def idFinish : Nat := 72
-def idFinishNonExhaustive : Nat := 73
-def idDebugStructFn : Nat := 74
-def idProvide : Nat := 75
+def assocBase : Nat := 67
+def idNew : Nat := 67
+def idDebugStruct : Nat := 68
+def idDebugTuple : Nat := 69
+def idFormatter : Nat := 70
+def idError : Nat := 71
+def idField : Nat := 72
+def idFinish : Nat := 73
+def idFinishNonExhaustive : Nat := 74
+def idDebugStructFn : Nat := 75
+def idProvide : Nat := 76
 def idWriteStr : Nat := 62
 example : fixedNames.length = assocBase + assocNames.length := rfl
 example : fixedNames[idNew]? = some "new" := rfl
@@ -93,7 +94,7 @@ class 2: the name starts with `__`: derive_more's reserved prefix for the names 
 introduces itself (`__AsT`, `__derive_more_f`, `__l_0`, ...). -/
 def dynBase : Nat := 100
 def isUpper (n : Nat) : Bool :=
-  (dynBase ≤ n && n % 4 == 1) || n == 67 || n == 68 || n == 69 || n == 70   -- DebugStruct, DebugTuple, Formatter, Error
+  (dynBase ≤ n && n % 4 == 1) || n == idDebugStruct || n == idDebugTuple || n == idFormatter || n == idError   -- DebugStruct, DebugTuple, Formatter, Error
 def isPrivate (n : Nat) : Bool := dynBase ≤ n && n % 4 == 2
 
 def isKeyword (n : Nat) : Bool := n < nKw
